@@ -2,7 +2,7 @@
    Group::read return on exactly the bytes Parameter::write and Group::write emit, for every well-formed
    parameter and group (the well-formedness predicate is the list of the format's capacity limits). *)
 From Coq Require Import Lia ZifyNat ZifyN ZifyBool.
-From EZ Require Import Base Bytes Types Api Enc Dec Proofs_Bytes Proofs_Lookup Proofs_Codec.
+From EZ Require Import Base Bytes Types Api Enc Dec Proofs_Bytes Proofs_Lookup Proofs_Param Proofs_Codec.
 Local Open Scope N_scope.
 
 (* m consumes exactly the bytes x and returns v, whatever follows *)
@@ -518,3 +518,47 @@ Proof.
   rewrite app_assoc. rewrite (Rg _ _ r (adv_fail _ _ _)); [|rewrite adv_rest; reflexivity].
   rewrite adv_adv. rewrite app_length. cbn [length]. unfold tell. cbn [adv st_fail st_pos]. rewrite Z2N.id by (unfold zlen; lia). do 2 f_equal. f_equal. f_equal. lia.
 Qed.
+
+(* ---------- what Parameter::set accepts within the capacity limits IS a well-formed parameter ---------- *)
+Lemma shape_covers : forall n dims, dims <> [] -> dim_consistent n dims = true -> prodN dims < 2147483648 -> n = prodN dims.
+Proof.
+  intros n dims Ne H Hp. apply (dim_consistent_spec n dims Hp) in H.
+  destruct H as [[_ E]|[E [D|D]]]; [exact E|contradiction|lia].
+Qed.
+
+Lemma dims_or_len_ne : forall dims n, dims_or_len dims n <> [].
+Proof. intros dims n. unfold dims_or_len. destruct dims; discriminate. Qed.
+
+Theorem set_ints_wf : forall p data dims q,
+  set_ints p data dims = Ok q -> p_floats p = [] -> p_strs p = [] ->
+  name_ok (p_name p) -> desc_ok (p_desc p) -> Forall int16 data ->
+  (let d := dims_or_len dims (nlen data) in (length d <= 255)%nat /\ Forall byte_ok d /\ prodN d < 2147483648 /\ loop_cost d 1 <= LIMC) ->
+  wf_param q.
+Proof.
+  intros p data dims q H Ef Es Hn Hd Hi Hdims. cbv zeta in Hdims. destruct Hdims as (L & Hb & Hp & Hc).
+  unfold set_ints in H. destruct (dim_consistent (nlen data) (dims_or_len dims (nlen data))) eqn:C; [|discriminate].
+  injection H as <-. unfold wf_param. cbn [p_name p_desc p_dims p_type p_ints p_floats p_strs].
+  split; [exact Hn|]. split; [exact Hd|]. split.
+  - unfold dims_ok. split; [apply dims_or_len_ne|]. auto.
+  - unfold typed_ok. cbn [p_type p_ints p_dims p_floats p_strs]. split; [exact Hi|]. split; [|auto].
+    apply shape_covers; [apply dims_or_len_ne|exact C|exact Hp].
+Qed.
+
+Theorem set_floats_wf : forall p data dims q,
+  set_floats p data dims = Ok q -> p_ints p = [] -> p_strs p = [] ->
+  name_ok (p_name p) -> desc_ok (p_desc p) -> Forall wf32 data ->
+  (let d := dims_or_len dims (nlen data) in (length d <= 255)%nat /\ Forall byte_ok d /\ prodN d < 2147483648 /\ loop_cost d 1 <= LIMC) ->
+  wf_param q.
+Proof.
+  intros p data dims q H Ei Es Hn Hd Hf Hdims. cbv zeta in Hdims. destruct Hdims as (L & Hb & Hp & Hc).
+  unfold set_floats in H. destruct (dim_consistent (nlen data) (dims_or_len dims (nlen data))) eqn:C; [|discriminate].
+  injection H as <-. unfold wf_param. cbn [p_name p_desc p_dims p_type p_ints p_floats p_strs].
+  split; [exact Hn|]. split; [exact Hd|]. split.
+  - unfold dims_ok. split; [apply dims_or_len_ne|]. auto.
+  - unfold typed_ok. cbn [p_type p_ints p_dims p_floats p_strs]. split; [exact Hf|]. split; [|auto].
+    apply shape_covers; [apply dims_or_len_ne|exact C|exact Hp].
+Qed.
+
+(* the new parameter of the API meets the side conditions on the stale vectors *)
+Lemma new_param_clean : forall n d, p_ints (new_param n d) = [] /\ p_floats (new_param n d) = [] /\ p_strs (new_param n d) = [].
+Proof. intros n d. repeat split. Qed.
